@@ -61,9 +61,9 @@ PROPS = {
                 quick=q(8, 3000, 40), thorough=t(8, 20000, 40, 60), assumptions=COMMON_ASSUME),
     "C14": dict(kind="prog", parts=[dict(target="thr", configs=["base", "dbg", "tsm1"])],
                 quick=q(6, 2500, 60), thorough=t(8, 25000, 60, 0), assumptions=COMMON_ASSUME),
-    "C15": prog("hist", ["base", "dbg"], q(5, 3000, 100), t(8, 40000, 120, 120), assumptions=COMMON_ASSUME),
+    "C15": prog("hist", ["base", "dbg"], q(5, 3000, 100), t(8, 25000, 120, 120), assumptions=COMMON_ASSUME),
     "C19": custom(pure),
-    "C16": prog("hist", ["base", "dbg"], q(6, 2500, 100), t(8, 10000, 160, 120), assumptions=COMMON_ASSUME),
+    "C16": prog("hist", ["base", "dbg"], q(6, 2500, 100), t(8, 7000, 160, 120), assumptions=COMMON_ASSUME),
     "C17": dict(kind="prog", parts=[dict(target="hist", configs=["base", "dbg"]),
                                    dict(target="fence", configs=["base", "dbg", "dbg16"],
                                         quick=dict(shards=4, cases=30000, size=24),
